@@ -81,3 +81,649 @@ if __name__ == "__main__":
                 if d not in seen:
                     seen.append(d)
         print(" ".join(seen))
+
+PROPS["C18"] = {
+    "lean_modules": ["EcModel.Props.C18"],
+    "harness": ["c18"],
+    "both_profiles": True,
+    "t1_facts": ["dc:", "Dc.lean"],
+    "known_keys_expected": ["c18/start-time-add-overflow"],
+    "modelled": "SubDeviceGroup::configure_dc_sync (reference check, dc_devices filter, u32 range checks, start-time rounding with "
+                "the unchecked u64 +,/,*, the five register writes per device, Sync01 arm with its u64 conversion, HasDc incl. the "
+                "`as u64` truncation of the shift) and the tail of tx_rx_dc (time % period, (period - offset) + shift), both in "
+                "checked and wrapping build modes; register addresses / flag constants / expression shapes regenerated from /repo",
+    "rule": "corpus of boundary configurations (period 1 and u32::MAX, sum = 2^64-1 and 2^64, range errors, no reference, nobody "
+            "wants DC, period 0, unchecked shift, SYNC1 beyond u64), then random groups of 1-8 devices with every DC support level "
+            "x DcSync setting, periods/delays/shifts 1..u32::MAX and just above (plus rare far-out values), reference times over all "
+            "of u64 with emphasis on 0, 2^32, 2^63, u64::MAX-delay(+1), exact multiples; 0-4 cycles per configuration with times "
+            "over all of u64 incl. multiples of the period +-1. The REAL configure_dc_sync / tx_rx_dc run through the public API "
+            "against a register-level responder; compared: result token, every FPWR (address, register, bytes) in order, and per "
+            "cycle (time, offset, wait, FRMW address). Dev profile and (thorough) release profile. non-trivial = accepted "
+            "configuration with >= 1 configured device and >= 1 cycle; distinct = distinct case line",
+    "assumptions": [
+        "every datagram is answered with working counter 1 (network errors/timeouts are other properties)",
+        "the group is built by the hook verif::dc::dc_group with Default + SubDeviceGroupHandle::push as MainDevice::init does; "
+        "the reference address is stored through MainDevice::verif_set_dc_reference",
+        "start_time_window is proved for reference time + delay < 2^64 only (known finding c18/start-time-add-overflow)",
+        "shift <= 2^33 ns in cycle_arithmetic_quantifier (the property's 'and just above'); cycle_arithmetic itself needs only period + shift < 2^64",
+    ],
+}
+
+MANIFEST_TEXT["C18"] = {
+    "text": "Theorems over all inputs and both build modes: only_dc_devices_touched (every write, whatever the outcome, goes to a "
+            "device that supports DC and enabled DcSync) and every_dc_device_configured; configure_ok (exact write sequence and "
+            "HasDc for every in-range configuration); start_time_window_partial (start % period = 0, ref+delay-period < start <= "
+            "ref+delay, written as 8 LE bytes to 0x0990) for 1 <= period <= u32::MAX, delay <= u32::MAX, ref+delay < 2^64; "
+            "range_errors; flags_match_mode (deactivate first, 0x03 / 0x07 last); cycle_times_written (0x09A0 = period, 0x09A4 iff "
+            "Sync01); cycle_arithmetic (offset = time % period, wait = (period-offset)+shift, no panic for EVERY time, period >= 1, "
+            "period+shift < 2^64); configured_group_cycles (end to end). Known finding: reference time + delay >= 2^64 panics in "
+            "debug builds and programs a start time outside the window in release builds (start_time_overflow_checked/_wrapping, "
+            "start_time_window_counterexample).",
+    "note": "Trusted: Lean kernel; hand translation of configure_dc_sync and the tx_rx_dc tail (validated by running the real async "
+            "code through PduTx/PduRx against a register-level responder, both profiles); network failures not modelled. Also "
+            "recorded (outside the quantifier): sync0_shift is not range checked (shift_not_range_checked), period 0 divides by zero.",
+    "technique": "Lean 4 proof (total model with explicit panic outcomes, both overflow modes) + differential correspondence on the real async code",
+}
+
+PROPS["C09"] = {
+    "lean_modules": ["EcModel.Props.C09"],
+    "harness": ["c09"],
+    "t1_facts": ["init:"],
+    "modelled": "MainDevice::{init, count_subdevices, reset_subdevices, wait_for_state}, Command::{apwr, brd} addressing, "
+                "SubDevice::new + SubDeviceRef::{wait_for_state, set_eeprom_mode, request_subdevice_state} (which device answers "
+                "and the projected command sequence), heapless Deque/Vec/FnvIndexMap capacity behaviour (incl. IndexMap::into_iter "
+                "popping from the back), SubDeviceGroupHandle::push, SubDeviceGroupRef::into_pre_op / configure_mailboxes and "
+                "dc::{latch_dc_times, configure_dc, run_dc_static_sync} as command sequences; environment = EcModel.Net "
+                "(auto-increment / configured-address / broadcast executors, working counter)",
+    "rule": "corpus (empty network, one device of each kind, n = MAX, MAX+1, MAX+2 for MAX in {2,4,8,16}, all devices holding the "
+            "same stale address incl. 0x1000, stale addresses = assigned range reversed / shifted by one, group overflow, unknown "
+            "SubDevice, unnamed 8-byte-SII mailbox devices of every DC flavour), then random line networks of 0..MAX+2 simulated "
+            "devices (coupler / bit-wide DI / DO / CoE with mailbox; stale station addresses random, duplicated or inside the "
+            "assigned range; stale AL states incl. error flag; 4/8-byte SII; with/without General category or name; DC none/"
+            "ref-only/32/64; filters into 1..3 groups of 6 capacity triples; 0..3 static sync iterations) run through the REAL "
+            "MainDevice::init against harness/src/sim. Compared with the model: result (groups with records / error kind), final "
+            "station address and AL status registers of every device, command trace projected to KIND:target:register with SII "
+            "interface accesses folded into one token and consecutive duplicates dropped. non-trivial = networks of >= 2 devices; "
+            "distinct = distinct case line",
+    "assumptions": [
+        "ring of at most 65535 devices (the largest count a 16-bit working counter reports); the harness runs 0..18",
+        "responsive devices in a line topology that accept AL requests at once (faults are C10/C11, topologies C17)",
+        "a device without DC does not implement the 0x09xx block (BWR 0x0900 counts DC devices only)",
+        "EEPROM content enters the model as the per-device DevInfo the harness derives from the device description, not by "
+        "modelling the SII parser (C12/C13); the simulator (harness/src/sim) is the environment oracle",
+        "SubDevice::index is not observable through the public API; the harness prints configured_address - 0x1000 for it",
+    ],
+}
+
+MANIFEST_TEXT["C09"] = {
+    "text": "Theorems over the hand-translated MainDevice::init on an abstract ring (EcModel.Net/Init), for every ring of "
+            "1..65535 devices with arbitrary (duplicate) stale station addresses and AL states, every MAX_SUBDEVICES, group "
+            "capacities and group filter: count_is_n (BRD working counter = n), address_assigned/address_at/addresses_distinct/"
+            "address_no_wrap/address_wraps (position i ends with (0x1000+i) mod 2^16, pairwise distinct), phase1_complete + "
+            "two_phase_sufficient (every APWR reaches only its own position and all of them precede configured-address traffic; "
+            "afterwards a command to 0x1000+i is executed by device i only) and one_phase_crosstalk_counterexample (a single loop "
+            "lets a stale duplicate answer too), init_ok/record_from_own_device/record_independent/each_device_one_group/"
+            "group_is_filters_choice/all_preop, capacity_error (n > MAX => Err(Capacity), never Ok), init_no_panic, empty_network. "
+            "Tied to the code by regenerated facts (register numbers, base address, the two separate loops, capacity error "
+            "mappings: t1_init_shape/t1_registers) and by running the real init against a simulated segment and diffing result, "
+            "final registers and projected command trace with the model; independent monitors for cross-talk, addresses, "
+            "records, membership, PRE-OP, capacity.",
+    "note": "Trusted: Lean kernel; the hand translation (validated only on generated networks of 0..18 devices); the simulated "
+            "segment as environment; EEPROM parsing is abstracted to per-device DevInfo; line topology, responsive devices.",
+    "technique": "Lean 4 proof (induction over the assignment / discovery / grouping loops) + differential correspondence on a simulated segment",
+}
+
+PROPS["C17"] = {
+    "lean_modules": ["EcModel.Props.C17"],
+    "harness": ["c17"],
+    "both_profiles": True,
+    "t1_facts": ["dc:", "Dc.lean"],
+    "known_keys_expected": ["c17/nested-junction-wrong-parent", "c17/nested-junction-panic", "c17/inconsistent-panic-nofree",
+                            "c17/inconsistent-panic-topology", "c17/chain-delay-nondc-gap", "c17/port-time-wrap",
+                            "c17/offset-i64-overflow"],
+    "modelled": "ports.rs Ports::{new,set_receive_times,open_ports,entry_port,last_port,next_assignable_port,"
+                "assign_next_downstream_port,port_assigned_to,topology,is_last_port,total_propagation_time,"
+                "intermediate_propagation_time_to,propagation_time_to}, SubDevice::is_child_of, dc.rs find_subdevice_parent, "
+                "configure_subdevice_offsets (incl. the evaluated log arguments of this build configuration), "
+                "assign_parent_relationships, write_dc_parameters (i64 negate/add in both overflow modes), configure_dc "
+                "(latch as a function of the register values, reference selection, offset/delay writes)",
+    "rule": "per tree: (1) `spec` line: the Rust physical oracle (event walk of the frame through the tree) vs the Lean "
+            "specification EcModel/DcSpec.lean (reports, arrival times, true parents, true downstream ports); (2) `assign` line: the "
+            "REAL assign_parent_relationships on the oracle's reports vs the Lean model; (3) `dc` line: the REAL configure_dc through "
+            "PduTx/PduRx against a register responder (BWR 0x0900, reads 0x0918/0x0900, writes 0x0920/0x0928) vs the model. Trees: "
+            "1-24 devices, 1-4 open ports, children on any of ports 3/1/2, link 10-2000 ns, processing/forwarding delays (equal or "
+            "independent 0-900 ns), DC support all/mixed/contiguous, 32- and 64-bit clocks with offsets placing the port-0 latch at "
+            "0, just after / just below / exactly at the 32-bit wrap; streams: flat trees (everything must hold), pure chains, "
+            "arbitrary shapes incl. nested junctions, intra-device wrap, plus arbitrary inconsistent reports (any DL status incl. no "
+            "open port, arbitrary times, 1-24 devices) and master times over u64 edges. Dev and (thorough) release profile. Compared: "
+            "result token incl. WHICH panic, per device parent/delay/downstream ports, reference address, all register writes. "
+            "non-trivial = case with >= 3 devices; distinct = distinct case line",
+    "assumptions": [
+        "devices are constructed by the hook verif::dc (Ports::new from the DL status, index = discovery position) exactly as SubDevice::new does",
+        "Port.number is written only by Ports::new (T1 check), so Port::index() is the identity on array slots (port_index_total)",
+        "build configuration without log/defmt: fmt::debug! evaluates its arguments (debug_print_ports calls topology())",
+        "parent_is_true_parent_partial: no junction inside a non-last branch of another junction; no 32-bit wrap between the latches of one DC device",
+        "chain_delay_exact_partial: all devices DC capable, pd(upstream) = return delay(downstream) on every hop, no wrap, loop < 2^32 ns",
+        "inconsistent_is_error_partial: every device reports >= 1 open port; the one remaining panic site is named in the conclusion",
+        "offset_formula in checked builds presupposes that configure_dc returned (i64 overflow panics are a known finding)",
+    ],
+}
+
+PROPS["C14"] = {
+    "lean_modules": ["EcModel.Props.C14"],
+    "harness": ["c14"],
+    "both_profiles": True,
+    "t1_facts": ["eeprom:"],
+    "known_keys_expected": ["c14/write-all-odd-panics", "c14/write-all-overrun-panics", "c14/write-range-overflow",
+                            "c14/write-retry-exhausted-reports-ok"],
+    "modelled": "SubDeviceEeprom::{set_station_alias, station_alias, start_at}, EepromRange::{new, Read::read, Write::write}, "
+                "embedded-io-async read_exact / write_all default methods (incl. their panics), crc::Crc<u8>::checksum for the "
+                "non-reflected 8-bit algorithm as a bitwise shift register, DeviceEeprom::write_word's retry decision; u16 "
+                "arithmetic in checked and wrapping mode; alias/checksum byte positions, CRC parameters and the retry limit "
+                "regenerated from /repo (Generated/Eeprom.lean)",
+    "rule": "alias: every alias value (thorough; stride 97 in quick) x a random header (0..200 byte image, random/partly missing "
+            "header, old alias equal/zero/random, fill ff/00/wrap, chunk 4/8): alias; set_station_alias; alias; read 16 bytes. "
+            "generic write: payloads of 0..64 bytes through write_all or one write on EepromRange::new(start, len) or "
+            "start_at(start, len_bytes) with start over the whole u16 range (emphasis 0, 0x7fff, 0x8000, 0xffff) and windows "
+            "shorter/equal/longer than the payload. The REAL code runs on an in-memory EepromDataProvider (ideal byte memory, "
+            "write log); compared with the model: result tokens, cursor, write log, provider call count, panic site. "
+            "retry: the REAL DeviceEeprom::write_word over a simulated ESC (SII control/address/data registers) refusing 0..30 "
+            "attempts with the command-error flag, accepting after 0..5 busy polls or staying busy; attempts compared with the "
+            "model. Dev profile and (thorough) release profile. non-trivial = alias case with distinct (alias, header) / "
+            "write of >= 2 bytes; distinct = distinct case line",
+    "assumptions": [
+        "provider serves at least 2 bytes per read_chunk (real devices: 4 or 8) and never fails in the in-memory runs",
+        "generic-write theorems are for windows that EepromRange::new can represent (start_word*2 + len_words*2 < 65536); "
+        "beyond that see known finding c14/write-range-overflow",
+        "write_all exactness is proved for even payloads that fit the window (known findings c14/write-all-odd-panics, "
+        "c14/write-all-overrun-panics)",
+        "busy polling / time-outs of the device provider are exercised on the real code only (simulated ESC), not modelled",
+    ],
+}
+
+MANIFEST_TEXT["C14"] = {
+    "text": "Theorems, for both build modes, every device memory, chunk size >= 2 and all 65536 aliases: alias_two_words "
+            "(set_station_alias returns Ok, its only provider writes are word 4 := alias and word 7 := (crc8 of the 14 header "
+            "bytes after patching, 0), memory = old memory with those four bytes replaced, alias read back = new alias), "
+            "alias_others_unchanged, alias_checksum_valid (byte 14 = crc8 of bytes 0..13 as they read afterwards, byte 15 = 0); "
+            "crc8_spec (the shift-register definition is the remainder of msg*x^8 + 0xFF*x^(8n) divided by x^8+x^2+x+1 over "
+            "GF(2): exists quotient, degree < 8; by induction over the message with one evaluated 256-case byte lemma); "
+            "write_exact / write_never_past_end (EepromRange::write on any aligned window < 64 KiB stores min(ceil(len/2), room) "
+            "words of the zero-padded buffer at consecutive word addresses, reports 2k, nothing else changes, no panic); "
+            "write_all_exact_partial (+ write_all_odd_counterexample, write_all_overrun_counterexample); range_new_partial "
+            "(+ range_new_overflow_counterexample); write_retry_bound (1..21 attempts, stops at first accepted attempt k<=20 "
+            "with k+1 attempts, 21 when the first 20 are refused). Tied by regenerated constants and by diffing results, write "
+            "logs and call counts of the real code against the model; independent monitors recompute the CRC by bit-vector long "
+            "division and diff the memory before/after.",
+    "note": "Trusted: Lean kernel; hand translation (validated on generated cases only); the in-memory provider and the simulated "
+            "ESC as environments. Known findings (genuine defects, not repaired): write_all panics for odd payloads and for "
+            "payloads longer than the window (so eeprom_write_dangerously::<u8> always panics); word addresses >= 0x8000 overflow "
+            "the u16 byte cursor; write_word reports Ok(()) after 21 refused attempts.",
+    "technique": "Lean 4 proof (loop invariants, GF(2) polynomial algebra for the CRC) + differential correspondence on the real code",
+}
+
+PROPS["C19"] = {
+    "lean_modules": ["EcModel.Props.C19"],
+    "harness": ["c19"],
+    "t1_facts": ["wire layout", "Layouts.lean", "WireMacro.lean"],
+    "known_keys_expected": ["c19/implicit-enum-discriminant"],
+    "modelled": "ethercrab-wire-derive: help.rs bit_width_attr; parse_struct.rs parse_struct (width table, pre/post skip, skip, bit_start/"
+                "bit_end/bytes/bit_offset, the three validity errors, total width); generate_struct.rs generate_struct_write/read/"
+                "sized_impl (u8/bool shortcut, one-byte OR-merge with the u16 mask, byte-aligned delegation, buffer zeroing, "
+                "get/get_mut length checks); parse_enum.rs parse_enum (discriminant accumulator, alternatives, catch_all, default, "
+                "its five errors); generate_enum.rs write (match arms with catch-all, `as repr` without) and read (first matching "
+                "arm, catch-all / default / InvalidValue); ethercrab-wire lib.rs pack_to_slice / pack_to_slice_unchecked / pack; "
+                "impls.rs u8..u64, i8..i64, f32/f64 (bit patterns), bool, (), [T; N] read, [u8; N] write, tuples",
+    "rule": "per run: a corpus of boundary declarations (3-bit field at offset 5 after a skip, 8-bit u8 at offset 0, the implicit-"
+            "discriminant witnesses, every macro error kind), then several hundred random struct/enum declarations (1-12 fields, "
+            "widths 1-64 bits obeying the macro's alignment rules, pre/post skips in bits and bytes, skip fields, u8..u64/i8..i64/"
+            "f32/f64/bool/enum/nested-struct/array fields, types narrower than their slot, a few misfits and packed structs; enums "
+            "with repr u8..i64, explicit/implicit/negative discriminants, alternatives, catch-all, default) written to "
+            "harness/gen-types, compiled with the REAL derive macro and run on random values (boundary biased, also over-wide) and "
+            "random buffers: pack, pack-then-unpack, pack_to_slice and pack_to_slice_unchecked into short/exact/long random-filled "
+            "destinations, unpack_from_slice of short/exact/long buffers and of undefined enum values; invalid declarations go "
+            "through the macro's own parse_struct/parse_enum (sources included by #[path]) and must be rejected with the error the "
+            "model predicts; every in-crate derived type nameable from the hook verif::wire is unpacked (and repacked) on random "
+            "buffers. Every answer is diffed with the Lean model and checked by an independent bit-level reference packer/unpacker "
+            "driven by the same layout description. non-trivial = struct with >= 2 non-skipped fields of which one is not byte "
+            "aligned, or enum with alternatives/catch-all/default; distinct = distinct case line",
+    "assumptions": [
+        "field widths >= 1 bit (the property's quantifier; `bits = 0` fields are accepted by the macro and are degenerate)",
+        "field types obey the trait laws (Lawful: proved for u8..u64, i8..i64, bool and closed under struct nesting) and are not "
+        "longer than their declared slot (slotFits; the macro cannot check it: a u32 in `bytes = 2` makes pack panic)",
+        "values are representable in the declared width (a u8 in a 3-bit field is < 8); the generated code masks wider values",
+        "enum round trip is proved for variants with explicit in-range discriminants and pairwise distinct discriminants/"
+        "alternatives, and for canonical catch-all payloads (known finding c19/implicit-enum-discriminant for the rest)",
+        "buffers are byte strings (every element < 256)",
+    ],
+}
+
+MANIFEST_TEXT["C19"] = {
+    "text": "Theorems for EVERY struct declaration accepted by the model of the macro's parse_struct, every lawful field type and "
+            "every representable value: pack_is_the_declared_layout / field_at_declared_bits (bits [bit_start, bit_start+w) of "
+            "pack(v), little-endian bit order, hold the field's own encoding) and undeclared_bits_zero; pack_never_panics; "
+            "unpack_reads_declared_bits and unpack_ignores_undeclared_bits (any buffer >= PACKED_LEN, no assumption on field "
+            "types); unpack_pack (also with trailing bytes); short_buffer_error and pack_to_slice_refuses_short (unconditional); "
+            "unpack_never_panics; nested_struct_lawful (the laws are closed under nesting, so depth is unbounded). Enums: "
+            "enum_roundtrip_partial (explicit discriminants), enum_catch_all_roundtrip, undefined_value_error_or_fallback "
+            "(catch-all / default / InvalidValue, ReadBufferTooShort, never a panic). The full enum round trip is FALSE of the code: "
+            "enum_roundtrip_counterexample (#[repr(u8)] enum {A,B,C}: A packs to 0 and 0 unpacks to InvalidValue, B packs to 1 and "
+            "unpacks to A) — known finding. T1: every derived struct/enum of /repo/src is re-extracted each run; layouts_accepted, "
+            "layouts_well_formed, layouts_enums_explicit are re-decided on them.",
+    "note": "Trusted: Lean kernel; hand translation of the macro's parse/generate code and of impls.rs (validated by compiling "
+            "hundreds of generated declarations with the real macro per run and diffing every answer, plus accept/reject agreement "
+            "on invalid declarations through the macro's own parse functions); rustc's own checks (types, literal ranges) are "
+            "outside the model. Partial: zero-width fields, arrays of zero-sized elements (chunks_exact(0) panics), hand-written "
+            "impls inside derived structs (bitflags wrappers, PduFlags) are opaque.",
+    "technique": "Lean 4 proof (bit-level invariant of the generated write loop, extensionality on bits) + differential correspondence "
+                 "on freshly generated programs compiled with the real proc-macro",
+}
+
+PROPS["C11"] = {
+    "lean_modules": ["EcModel.Props.C11"],
+    "harness": ["c11"],
+    "t1_facts": ["wkc", "WkcSites", "WrappedRead", "WrappedWrite", "ReceivedPdu::wkc", "RegisterAddress", "AlControl packed length", "push_state_checks"],
+    "known_keys_expected": ["c11/ok-despite-mismatch/grp/FPRD:0130"],
+    "modelled": "ReceivedPdu::{wkc, maybe_wkc}; WrappedRead::{new, ignore_wkc, with_wkc, receive, receive_slice, receive_wkc}; "
+                "WrappedWrite::{new, ignore_wkc, with_wkc, send, send_receive, send_receive_slice}; SubDeviceRef::{register_read, "
+                "register_write, state, status (incl. the poll order of futures_lite::try_zip), wait_for_state, "
+                "request_subdevice_state_nowait}; DeviceEeprom::{wait_while_busy, read_chunk, write_word, clear_errors}; "
+                "Coe::{wait_for_mailboxes, wait_for_mailbox_response} and the exchange part of mailbox_write_read; "
+                "MainDevice::wait_for_state; SubDeviceGroup::{is_state, wait_for_state, transition_to, request_into_op} "
+                "(GroupState.lean); TimeoutFuture (deadline before inner future)",
+    "rule": "corpus first (every composite path healthy / first checked datagram unanswered / an exempt datagram unanswered / "
+            "device dropped out / frame lost, and the witnesses of the known gap), then random cases, half of them builder methods "
+            "(receive, receive_slice, send, send_receive, send_receive_slice on FPRD/APRD/BRD/FRMW/FPWR/APWR/BWR/LWR/LRW with "
+            "expected = default / ignore_wkc / with_wkc(0..3)) against 0-4 bare devices (absent addresses, duplicate station "
+            "addresses => counter 2, broadcasts => counter n) with the wire setting/incrementing the counter or losing the frame; "
+            "half composite paths on a network brought up by the real MainDevice::init (register_read/write, status with and "
+            "without error indication, DeviceEeprom read_chunk/write_word/clear_errors with busy/busy-forever/command-error "
+            "scripts, sdo_read/sdo_write with response delays and a stale out-mailbox, PreOp->..->Op group transition, "
+            "request_into_op, MainDevice::wait_for_state) with 0-2 scripted faults at random datagram ordinals (counter set to "
+            "0/2/0..3, +1, frame lost before/after the devices, device forgets its station address). The case line is the trace of "
+            "datagrams as delivered (payload + counter), the model must predict the result token from it. Monitor (independent "
+            "table of which command/register/phase must be checked): Ok while a datagram the property requires to be checked came "
+            "back with another counter; WorkingCounter error whose counts are not those of a delivered datagram; accepted counter "
+            "but error; returned bytes differ from the delivered / stored ones. non-trivial = case in which some datagram came "
+            "back with a counter other than 1 or was lost; distinct = distinct case line",
+    "assumptions": [
+        "one MainDevice task (responses are matched to requests: C01); retries disabled (RetryBehaviour::None, the default)",
+        "the CoE layer above the mailbox exchange (header parsing, segmentation) is C15/C16: sdo_checked is about the raw response handed to it",
+        "group transitions: the status polls of is_state are NOT checked by the code (known finding); the request phase is",
+    ],
+}
+
+MANIFEST_TEXT["C11"] = {
+    "text": "Theorems for every payload, counter and transport outcome: checked_returns_only_on_match / checked_slice_returns_only_on_match "
+            "(Ok only if the datagram came back with counter = expected, and the value is the decoding of that very payload), "
+            "mismatch_error_carries_counts (exactly WorkingCounter{expected, received}), match_is_accepted, default_expected_is_one "
+            "(the literal is re-read from reads.rs/writes.rs every run), transport_error_passes_through, exemptions_as_coded (send, "
+            "receive_wkc, ignore_wkc). Composite paths against an arbitrary event trace (any number of polls, any responses, losses, "
+            "deadlines): register_access_checked, status_checked, state_request_checked, eeprom_read_checked (all status polls and the "
+            "data read had counter 1; the only unchecked exchange is the documented fire-and-forget command write), "
+            "eeprom_write_checked, eeprom_clear_errors_checked, sdo_checked (raw mailbox response came from a counter-1 read preceded by a counter-1 "
+            "'mailbox full' poll), md_wait_checked (counter = number of SubDevices), absent_device_never_ok (no path reports success "
+            "when no response carries counter 1), group_transition_absent. Exempt set as data (T1): exempt_sites — every "
+            ".ignore_wkc() / .send( / .receive_wkc / raw-ReceivedPdu consumer in /repo/src equals the reviewed list, so a new silent "
+            "opt-out breaks the obligation; checked_methods — exactly receive, receive_slice, send_receive, send_receive_slice pass "
+            "through maybe_wkc(self.wkc). KNOWN GAP: group_status_poll_unchecked_counterexample — SubDeviceGroup::is_state never "
+            "looks at the counter of its status polls.",
+    "note": "Trusted: Lean kernel; hand translation of the paths (validated by diffing the result token on traces recorded from the "
+            "real code under scripted wire faults); tools/extract_wkc.py (regex walk). The trace abstraction orders events as "
+            "the datagrams are sent; for the two concurrent reads of status() the poll order of try_zip is modelled explicitly. "
+            "A working-counter fault on a group status poll surfaces as Timeout(StateTransition) at best, not as WorkingCounter.",
+    "technique": "Lean 4 proof (case analysis + induction over event traces) + regenerated exempt-site obligation + differential correspondence",
+}
+
+
+PROPS["C20"] = {
+    "lean_modules": ["EcModel.Props.C20"],
+    "harness": ["c20"],
+    "t1_facts": [],
+    "known_keys_expected": ["c20/index-reuse-in-flight"],
+    "modelled": "at await-point granularity: PduStorageRef::alloc_frame (2n rounds of the wrapping u8 cursor), the shared wrapping "
+                "datagram index (one per datagram), PduStorageRef::frame_index_by_first_pdu_index + PduRx::receive_frame as the "
+                "routing function (first slot in Sent whose marker equals the frame's first index), ReceiveFrameFut Ready + "
+                "ReceivedFrame drop (slot release), SubDeviceGroup::tx_rx's write of the response into the group's own image; "
+                "tasks as arbitrary deterministic programs (next request = function of the responses so far: cycles, register "
+                "accesses, SDO/EEPROM transactions); the segment ABSTRACT (any seg : state -> request -> state x response), "
+                "frames reaching it and returning with arbitrary per-frame latencies",
+    "rule": "witness of the index-reuse finding first; then per case 2-4 cooperative tasks on the deterministic executor (seeded choice "
+            "at every poll) over 2-8 simulated devices (coupler / digital in / digital out / CoE with 48-128 byte mailbox, mailbox "
+            "answer delay 0-3 datagrams, SII chunk 4/8) in 2-3 groups (real init with group filter, real into_op), storage 2 (one "
+            "slot per task) / 4 / 8 / 16 slots, per-frame latency 0-500 us in five distributions (zero, uniform, 0-or-500, "
+            "decreasing, mostly-fast), optional wire time, wait-loop delay 0/20/200 us; programs of 3-10 operations per task: "
+            "tx_rx of an own group with tagged changing outputs, input pokes, private and SHARED scratch register reads/writes, "
+            "read-only registers of any device, SDO uploads (1-10 bytes: expedited and normal) and expedited downloads on owned CoE "
+            "devices, EEPROM reads; compared: wire indices, admissibility, every operation result of every task, final images "
+            "(model vs real), and independently: sequential oracle in segment order on an identically initialised segment, each "
+            "task alone (cases without shared registers), tag monitors, no-error monitor, every response accepted; "
+            "non-trivial = responses were delivered out of order with >= 2 frames in flight; distinct = distinct generator seed",
+    "assumptions": [
+        "cooperative single-threaded executor: code between awaits is atomic (OS-thread parallelism inside those sections is covered only through the micro-step model of C01/C02)",
+        "two tasks cycling the SAME group (spin lock held across awaits) is outside the property; every group is cycled by one task",
+        "PDU timeouts are large and nothing is lost: a slot is released only by its requester picking the response up (timeouts/retries: C06)",
+        "< 256 datagram indices handed out while a request is in flight (Admissible); outside it the real routing misdelivers: known finding c20/index-reuse-in-flight, theorem transparent_transport_counterexample",
+        "imported as named hypotheses, to be wired by the lead: C01 deliver-exact (response frame carries the first index it was sent with, receive_frame copies it unchanged), C03 slots returned, C07/C08 disjoint logical windows (WindowsDisjoint)",
+        "same_as_alone needs commuting segment transitions for requests of different tasks (explicit hypothesis Commute on seg); without it only same_as_sequential (linearisability) holds",
+        "storage sizes are powers of two (PduStorage::new asserts it); 'just enough' for 3 tasks is therefore 4 slots",
+    ],
+}
+
+MANIFEST_TEXT["C20"] = {
+    "text": "Theorems for every slot count, task count, task program, schedule of issue/arrive/deliver/consume steps (= every "
+            "interleaving and every per-frame latency assignment) and EVERY segment behaviour (seg abstract): routing_table "
+            "(in-flight requests have distinct first indices, one slot per task), transparent_transport (the segment's response "
+            "to a request is routed to the requester's own slot and nowhere else; partial: under Admissible = fewer than 256 "
+            "indices handed out during a flight; transparent_transport_counterexample shows the cross-delivery otherwise), "
+            "alloc_never_spurious / alloc_fails_iff_full / issue_never_spurious (SwapState iff all n slots in flight, for the real "
+            "2n-round wrapping cursor), images_separate + images_provenance + cycles_commute (a group's image changes only by the "
+            "segment's response to that group's own cycle; LRW over disjoint windows commute), same_as_sequential (each task's "
+            "results are its share of ONE sequential execution in the order the segment processed the frames, requests in program "
+            "order, final device state equal) and same_as_alone (with commuting cross-task requests: results equal running the "
+            "program alone from the same initial segment state). Proved by an invariant over the schedule (induction). Tied to the "
+            "code by replaying recorded schedules of the real stack (2-4 tasks, reordered responses, tight storage) through the "
+            "model's step function and diffing indices, results and images, plus an independent sequential/alone oracle.",
+    "note": "Level note: await-point granularity only - OS-thread parallelism is covered only through the lead's micro-step model "
+            "for C01/C02; two tasks cycling the SAME group is outside the property; timeouts/retries/lost frames are C06. "
+            "Known finding c20/index-reuse-in-flight (8-bit first index reused while an older request with the same index is "
+            "still in flight in a lower slot: both tasks receive each other's response) is inside the property's quantifier "
+            "only for zero-latency bursts of >= 256 datagrams within one 500 us flight. Trusted: Lean kernel; hand translation "
+            "of alloc_frame / routing / slot release at await granularity (validated by the correspondence); the harness' "
+            "attribution of frames to tasks (frames sent right after a poll belong to the polled task).",
+    "technique": "Lean 4 proof (invariant by induction over schedules, abstract segment, commutation argument) + schedule-replay correspondence + sequential oracle",
+}
+
+
+PROPS["C16"] = {
+    "lean_modules": ["EcModel.Props.C16"],
+    "harness": ["c16"],
+    "both_profiles": True,
+    "t1_facts": ["coe:"],
+    "known_keys_expected": ["c16/emergency-assert", "c16/segment-length-underflow", "c16/sdo-info-length",
+                            "c16/sdo-info-endless", "c16/segment-endless"],
+    "modelled": "mailbox/coe/mod.rs: wait_for_mailboxes (stale drain, 10 rounds), wait_for_mailbox_response, mailbox_write_read "
+                "(HeadersRaw triage: assert_ne!, emergency, abort, type/index/sub-index validation, R::unpack, trim_front), "
+                "send_sdo_info_service (fragment loop, length - 8, response[..length], 0x1fffe buffer), sdo_write, sdo_write_array, "
+                "sdo_read (expedited / normal / segmented loop with length - 3 and the == 7 case), sdo_read_expedited, sdo_read_array, "
+                "sdo_info_object_description_list / _quantities; services.rs request constructors; headers.rs / mailbox/mod.rs derive "
+                "decoders (bit fields, enum validity); SubDevice::mailbox_counter; ReceivedPdu::{deref, trim_front}; unchecked u16/usize "
+                "subtraction in checked and wrapping mode. Enum discriminants, packed lengths and the literal constants are regenerated "
+                "from /repo (Generated/Coe.lean) and used by the model",
+    "rule": "corpus (witness of every known finding, boundary length fields, exactly-full / one-too-many 0x1fffe buffer, 131 134 "
+            "zero-length fragments, 40 zero-length segments), then for sdo_read (u8/u16/u32/u64/[u8;N]/[u16;N]/String<N>/Vec<u8,N> "
+            "destinations), sdo_read_expedited, sdo_write, sdo_read_array, sdo_write_array, sdo_info_object_description_list, "
+            "sdo_info_object_quantities: every header byte of a valid reply over 0..255 (thorough: every byte of the first 20; quick: "
+            "bytes 5,7,8 fully, the others over 15 edge values), the length field over its range, every truncation length, read "
+            "mailboxes 6..1024 (thorough: every size) x write mailboxes 6..128, random and field-mutated contents incl. stale "
+            "non-zero bytes behind the message, 0..11 stale messages, segmented sequences (command 3 and the standard's command 0, "
+            "length fields 0..3/0xffff, <7-byte encoding, toggles) and SDO-info fragment sequences (length fields below 8 / beyond the "
+            "data, wrong op codes / services), a device without mailboxes. The REAL code runs through the public SubDeviceRef API "
+            "against ecverif::sim (scripted raw replies), catch_unwind + step limit per case; compared with drv_c16: result token "
+            "(value bytes / error kind with its fields / panic), mailbox counter afterwards, number of mailbox reads, messages left "
+            "in the device, every request image written. Dev profile and (thorough) release profile. non-trivial = case with more "
+            "than one request or more than one mailbox read; distinct = distinct case line",
+    "assumptions": [
+        "every register / mailbox datagram is answered (loss, PDU timeouts, working-counter errors are C06/C11); a device that does "
+        "not answer a mailbox request is modelled (response timeout)",
+        "the device's IN mailbox is free when the request is written (the wait loop for it is not modelled)",
+        "coe_total is proved only for devices that never send a reply of the classes P1 (service nibble = Emergency while the "
+        "assert_ne! is compiled in), P2 (segment reply with mailbox length < 3, checked builds), P3/P4 (SDO-info reply with length "
+        "field < 8 or > data present; hypothesis conservative by 2 bytes for continuation fragments): known findings",
+        "info_terminates / segments_terminate bound the reads only for devices whose accepted fragments carry >= 1 byte: known findings",
+        "usize is 64 bit; destination buffers are shorter than 2^64 - 65536 bytes (total_len + chunk_len cannot overflow)",
+    ],
+}
+
+MANIFEST_TEXT["C16"] = {
+    "text": "Theorems for an ARBITRARY device (any function from requests to lists of raw mailbox byte strings), any mailbox sizes, "
+            "any stale queue, both overflow-check profiles: coe_total_partial (all seven entry points return a value or an error "
+            "unless the device sends one of three exactly described reply classes; corollaries for every script of byte strings), "
+            "four coe_total_counterexample theorems (one per panic site), reads_inside_reply (trim_front views stay inside the reply; "
+            "the two functions holding the ReceivedPdu are functions of the reply bytes; no entry point depends on the bytes around "
+            "the reply in the frame buffer), info_buffer_bounded (<= 0x1fffe after every iteration), info_terminates (every read "
+            "consumes one message; <= 0x1fffe+1 reads if fragments carry data) with info_terminates_counterexample and "
+            "segments_terminate_partial/_counterexample (for every n a script keeps the loop running n rounds). Tied to the code by "
+            "regenerated enum tables / packed lengths / constants / source shapes and by diffing result, counter, reads, requests "
+            "against the real code on mutated, truncated, random and multi-message replies for mailboxes 6..1024 in both profiles.",
+    "note": "PARTIAL: the unconditional coe_total / info_terminates are false of the current code (known findings c16/emergency-assert, "
+            "c16/segment-length-underflow, c16/sdo-info-length, c16/sdo-info-endless, c16/segment-endless; each replayed on the real "
+            "code every run). Trusted: Lean kernel; the hand translation of coe/mod.rs incl. which operations can panic (validated by "
+            "catch_unwind on every generated case); the simulated ESC mailbox (ecverif::sim). PDU-level failures are out of scope.",
+    "technique": "Lean 4 proof (invariant over an arbitrary environment, induction over loops) + differential correspondence",
+}
+
+PROPS["C08"] = {
+    "lean_modules": ["EcModel.Props.C08"],
+    "harness": ["c08"],
+    "both_profiles": True,
+    "t1_facts": ["SyncManagerType", "FmmuUsage", "Fmmu", "SyncManagerChannel", "Direction", "OperationMode"],
+    "modelled": "PdiOffset::{increment,increment_byte_aligned,up_to}; SubDeviceRef::{configure_mailbox_sms,configure_fmmus,"
+                "configure_pdos_coe,configure_pdos_eeprom,write_sm_config,write_fmmu_config (incl. the read-modify-write 'FMMU "
+                "already enabled => extend' branch)}; SyncManager::usage_type; SubDeviceGroup::configure_fmmus (inputs pass, outputs "
+                "pass, PdiTooLong); SubDeviceGroupRef::into_pre_op (offset += MAX_PDI as u16); MainDevice::init's group map order "
+                "(heapless IndexMap drained from the back); all u16/u32/usize arithmetic through Ec.Mode; device side: FMMU "
+                "translation (byte granular; theorem fmmus_byte_aligned) and sync manager windows per ETG1000.4 6.6/6.7",
+    "rule": "corpus (plain terminals, 3 interleaved groups, exact fit / one byte too long, CoE with contiguous and with "
+            "non-contiguous sync managers, FoE device with 3 FMMUs, >8 sync managers, missing FMMU usage, oversampling, derived SM "
+            "types, the witnesses of the four known findings) then random lines of 1..16 simulated devices: no mailbox / mailbox "
+            "without CoE / CoE; 0-3 output and 0-3 input sync managers interleaved at random, declared or control-derived type, "
+            "enable byte variants; 0-8 PDOs per direction with 0-6 (rarely up to 60) entries of 1..64 (rarely ..255) bits; "
+            "oversampling lists; FMMU usage list variants (shuffled, duplicates, 0xFF, missing); FMMU_EX lists; 1-16 FMMU entities; "
+            "contiguous or gapped physical layout; 1-3 groups with MAX_PDI from {1,6,40,300,4000,65535} fitting or not. Real "
+            "MainDevice::init -> into_safe_op -> into_op -> 2 x tx_rx per group on the simulated segment (dev profile: overflow "
+            "checks on; thorough also release profile: wrapping). Compared with drv_c08: per group start/read_len/pdi_len or error "
+            "token or panic, per device input/output window (hook io_ranges) and every non-zero SM (8 bytes) and FMMU (16 bytes) "
+            "register of the simulated controller. non-trivial = a group reached OP with >= 2 devices that have process data; "
+            "distinct = distinct case line",
+    "assumptions": [
+        "MAX_PDI < 64 KiB (the property's bound; into_pre_op truncates with `as u16`), <= 16 FMMU register sets per controller",
+        "cooperative environment: register reads/writes acknowledged, devices in PRE-OP, EEPROM categories parse (C12/C13), SDO "
+        "uploads of 0x1C1x/0x16xx/0x1Axx answer or abort; reset_subdevices blanked FMMU 0..15 / SM 0..15 before (state `Fresh`)",
+        "fmmu_maps_exactly / outputs_reach_only_owner / inputs_come_only_from_owner are PARTIAL: hypotheses FmmuAvail (every FMMU "
+        "number the MainDevice picks exists in the controller) and SharedContig (CoE path: sync managers sharing the one FMMU are "
+        "physically contiguous); cross-group isolation needs the other group's layout to fit its MAX_PDI (a group that failed "
+        "keeps its FMMUs); u16 bit-length sums must not overflow (checked build panics, wrapping build mis-sizes) - each excluded "
+        "class has a _counterexample theorem and a monitor key in KNOWN_FINDINGS.txt",
+        "device-side FMMU semantics are the simulator's (harness/src/sim/esc.rs::logical), restated in Lean as Fmmu.hit / fmmuMap; "
+        "the marker round trip through real tx_rx cycles checks them against each other on every case",
+    ],
+    "known_keys_expected": ["c08/coe-multi-sm-shared-fmmu", "c08/eeprom-fmmu-index-is-sm-index", "c08/failed-group-keeps-fmmus",
+                            "c08/pdo-bit-length-u16-overflow"],
+}
+
+MANIFEST_TEXT["C08"] = {
+    "text": "Theorems for every list of device descriptions (mailbox/CoE or not, any sync managers, PDO sets, FMMU lists, "
+            "oversampling) in a group at any start address: windows_inside_image, inputs_before_outputs, windows_disjoint, "
+            "window_length (= sum over the direction's sync managers of ceil(sum PDO bits x oversampling / 8), CoE or EEPROM), "
+            "image_length, too_long_is_error, fmmus_byte_aligned, fmmu_maps_exactly_partial (programmed FMMUs map the window byte "
+            "for byte onto the programmed sync managers and nothing else onto the device), window_is_backed, window_reaches_owner, "
+            "window_reaches_only_owner, outputs_reach_only_owner, inputs_come_only_from_owner, translations_inside_group; for every "
+            "partition into groups: groups_disjoint, groups_isolated; release_agrees_with_debug (wrapping build = checking build "
+            "wherever the latter does not panic). Proof: successful loop runs are shown equal to pure folds over the direction's "
+            "sync managers, whose register/offset/translation effect is characterised by induction; two passes composed per device; "
+            "tilings per group. Counterexample theorems (kernel-evaluated on the model, reproduced on the real code every run): "
+            "fmmu_maps_exactly_counterexample (CoE: several sync managers share one FMMU), fmmu_avail_counterexample (EEPROM path: "
+            "FMMU number := SM number), failed_group_keeps_fmmus_counterexample, bit_length_overflow_counterexample.",
+    "note": "Trusted: Lean kernel; hand translation of the configuration code (validated by diffing windows and all SM/FMMU "
+            "registers against the real stack on a simulated segment, dev and release profile); the simulator's FMMU semantics as "
+            "the device side; the cooperative-environment assumptions. Partial where the code breaks the property: see the four "
+            "known findings.",
+    "technique": "Lean 4 proof (refinement of the imperative loops to pure folds + invariants by induction, all inputs) + "
+                 "differential correspondence on a simulated EtherCAT segment + marker round-trip monitor",
+}
+
+
+PROPS["C03"] = {
+    "lean_modules": ["EcModel.Props.C03"],
+    "harness": ["c03"],
+    "drivers": {"c03": "drv_seq"},
+    "t1_facts": ["FrameState", "transition", "FIRST_PDU_EMPTY", "ETHERCAT_ETHERTYPE", "MAINDEVICE_ADDR", "LEN_MASK"],
+    "modelled": "PduStorageRef::{alloc_frame,reset}, FrameElement::{claim_created,claim_sending,claim_receiving,swap_state,set_state}, "
+                "CreatedFrame::{push_pdu,push_pdu_slice_rest,mark_sendable,drop}, PduTx::next_sendable_frame, "
+                "SendableFrame::send_blocking (mark_sent / release_sending_claim), PduRx::receive_frame, "
+                "ReceiveFrameFut::{poll,drop}, ReceivedFrame::{first_pdu,into_pdu_iter,drop}, ReceivedPdu::{trim_front,drop} "
+                "as whole API calls (EcModel/Slots.lean), stepped by Ec.step over Ec.Op (Lemmas/SlotsStep.lean)",
+    "rule": "random histories: 7 bias profiles (balanced, send failures partial+error, lossy/no retries, retries 0..3 with expiries, "
+            "abandon-heavy drops of futures and created frames, garbage+duplicate responses, reset at quiescent points) x 1/2/4/8 slots of "
+            "28..72 bytes, 0..(25+12n) adaptive operations (alloc, pushes, mark_sendable, TX claim/send ok/partial/error, genuine/duplicate/"
+            "garbage/oversize responses, polls, clock advances, drops, response reads), then every live handle disposed of in a random "
+            "order (stale SendableFrames completed with a random outcome), full snapshot, n probe allocations + one more that must fail, "
+            "probe frames dropped; exhaustive enumeration of all enabled operation sequences over one slot to depth 6 (quick) / 8 "
+            "(thorough) for two initial counter values, every node drained and probed; every result token and snapshot compared with "
+            "the model. non-trivial = history with a completed request, a timeout or a failed send; distinct = distinct case line",
+    "assumptions": [
+        "slot count divides 256 (1, 2, 4, ..., 128: the sizes PduStorage::new accepts) for the capacity clauses",
+        "sequential histories of whole API calls; reset only with no live handle (what &mut PduLoop enforces); a new handle is stored "
+        "into a free register (storing into an occupied one would run the old handle's destructor = a separate drop operation)",
+        "interleavings inside send_blocking / receive_frame / alloc_frame are C02/C06 (micro-step model)",
+    ],
+}
+
+MANIFEST_TEXT["C03"] = {
+    "text": "Theorems over every slot count, frame size, initial counters and every history of API operations (induction over operation "
+            "lists, ownership invariant J proved preserved by all 19 operations): ownership_invariant, held_iff_handle (a slot is held iff "
+            "exactly one live owner handle of the matching kind refers to it), capacity_conserved (held slots = live owner handles), "
+            "alloc_complete (if a slot is None alloc_frame succeeds: 2n wrapping-u8 cursor values cover all residues because n | 256), "
+            "alloc_fails_only_if_full (+ converse), created_drop_releases, drain_restores_capacity (after ANY history, disposing of every "
+            "handle in any order leaves every slot None, then n allocations succeed and the (n+1)-th reports SwapState), capacity_exact "
+            "(from any reachable world exactly n - owners further allocations succeed), no_panic_in_drop (the panic branch of "
+            "ReceivedFrame::drop is unreachable), abandon_then_stale_send_keeps_capacity. Tied to the code by diffing every result token "
+            "and slot snapshot of random and exhaustive-to-depth histories, each followed by the drain-and-reallocate probe.",
+    "note": "Trusted: Lean kernel; the hand translation in Slots.lean (validated only on generated histories); harness register "
+            "discipline = Rust ownership. Capacity clauses assume n | 256 (all sizes the constructor accepts). The history 'future abandoned "
+            "while TX holds the SendableFrame, then the send completes' is covered at API level (the send's compare-exchange fails since fix "
+            "362a9e12); what happens INSIDE send_blocking/receive_frame is the C06 micro-step model's business.",
+    "technique": "Lean 4 proof (ownership invariant by induction over operation lists; counting by a permutation argument) + differential "
+                 "correspondence with drain-and-reallocate probe",
+}
+
+PROPS["C06"] = {
+    "lean_modules": ["EcModel.Props.C06"],
+    "harness": ["c06"],
+    "drivers": {"c06": "drv_seq"},
+    "t1_facts": ["RetryBehaviour", "FrameState", "transition", "FIRST_PDU_EMPTY"],
+    "modelled": "ReceiveFrameFut::{poll,drop,release} with embassy-time's Timer (expiry reported from the second poll on), "
+                "SendableFrame::{send_blocking,mark_sent,release_sending_claim}, PduTx::next_sendable_frame, PduRx::receive_frame, "
+                "CreatedFrame::mark_sendable(timeout, retries), RetryBehaviour::retry_count (regenerated), as whole API calls "
+                "(EcModel/Slots.lean); one request observed along arbitrary histories by ghost functions sends/expiries/pollOuts "
+                "(Lemmas/SlotsRetry.lean)",
+    "rule": "systematic plans: 1/2/4 (thorough: 8) slots x retry budget 0,1,2,3,usize::MAX (Forever observed for 5 deadlines) x every subset "
+            "of transmissions lost x clock just before (T-1, then +1) / exactly at / after each deadline x extra polls after mark / before "
+            "claim / between claim and send / after send / after receive with the clock far past the deadline x competitor none / issued "
+            "first / allocating after every deadline x response delivered in time or after the deadline passed; abandonment plans: drop or "
+            "final timeout in each of Sendable, Sending, Sent, RxBusy (oversize response), RxDone, before/after the deadline, stale send "
+            "completing with ok/partial/error before or after a second request claimed the slot, second request run to completion; retry "
+            "expiry while Sending with every stale-send outcome; plus random retry-heavy histories over 1/2/4/8 slots. Every result "
+            "token (and the final snapshot) compared with the model. non-trivial = a request resolved (ok or timeout); distinct = distinct case line",
+    "assumptions": [
+        "sequential clauses only: whole API calls without interleaving; the clauses about expiry/abandonment while the TX or RX side is "
+        "INSIDE send_blocking / receive_frame come from the lead's micro-step model (Props/C06Micro.lean)",
+        "transmission-count clause: the property's own assumption (TX services every Sendable frame before the next deadline = at every "
+        "poll that finds the deadline expired the slot is Sent), no response arrives, the future is not dropped, and no SendableFrame "
+        "of an earlier abandoned request is outstanding on the slot when the request is marked sendable",
+        "embassy-time timer semantics of the no_std build (first poll of a timer never reports expiry); usize = 64 bit",
+    ],
+}
+
+MANIFEST_TEXT["C06"] = {
+    "text": "Sequential clauses, for every reachable world and arbitrary histories of all API operations around the observed request: "
+            "retry_count_table (against the regenerated RetryBehaviour::retry_count) and retry_budget_sites; response_beats_deadline "
+            "(RxDone at poll => Ready(Ok) whatever clock, deadline and retry counter say) and ok_only_if_rxDone; "
+            "never_success_without_response (a poll returns Ok only if a receive_frame accepted a frame into that slot while it was Sent, "
+            "and the slot stayed RxDone until the poll); timeout_progress / timeout_exact (no response, TX discipline, R retries => every "
+            "poll pending, exactly 1+R complete transmissions, all byte-identical, then Err(Timeout), slot released) and "
+            "forever_never_completes (usize::MAX: one transmission per expired deadline, no completion in any history shorter than "
+            "usize::MAX); abandon_safe_partial (drop or final timeout with no SendableFrame outstanding: slot None, nobody refers to it, "
+            "invariant kept, next allocation succeeds and returns this slot if the others are held); "
+            "abandon_while_sending_keeps_capacity (abandoned in Sending: slot None, the later send's compare-exchange fails and changes no "
+            "slot, also after the slot was claimed again); retry_while_sending (retry expiry in Sending => Sendable, the stale send cannot "
+            "mark it Sent); tx_serves_every_sendable; retransmission_needs_tx_discipline_counterexample (without the TX-discipline "
+            "assumption a second claim can transmit response bytes). Tied by diffing every result token of systematic deadline/loss/poll "
+            "placement plans, abandonment plans and random histories; independent monitors on transmission count/bytes, future output, "
+            "later requests' results and slot states after quiescence.",
+    "note": "PARTIAL by construction: only the sequential (API-call granularity) clauses are proved here, namely retry_count_table, "
+            "retry_budget_sites, response_beats_deadline, ok_only_if_rxDone, never_success_without_response, timeout_progress, timeout_exact, "
+            "forever_never_completes, abandon_effect, abandon_safe_partial, abandon_while_sending_keeps_capacity, retry_while_sending, "
+            "tx_serves_every_sendable (+ the counterexample showing the transmission clause needs its TX assumption). The concurrency "
+            "clauses of the property — expiry or abandonment while the transmit or receive side is inside its buffer (buffer reuse while "
+            "TX reads it, retry while RX copies), over all interleavings — come from the lead's micro-step model (Props/C06Micro.lean) "
+            "and are NOT claimed by these theorems. Trusted: Lean kernel; hand translation in Slots.lean incl. the embassy timer's "
+            "first-poll behaviour (validated on generated histories only); tx_rx_task in src/std returning on any receive error is "
+            "outside the anchored files.",
+    "technique": "Lean 4 proof (per-request invariant over arbitrary operation histories with ghost counters; case analysis of poll) + "
+                 "differential correspondence under a virtual clock",
+}
+
+PROPS["C10"] = {
+    "lean_modules": ["EcModel.Props.C10"],
+    "harness": ["c10"],
+    "t1_facts": ["SubDeviceState discriminants", "RegisterAddress", "AlControl packed length", "push_state_checks", "WkcSites"],
+    "known_keys_expected": ["c10/summary-or-fold-loses-none", "c10/summary-or-fold-merges-states", "c10/ok-despite-error-indication"],
+    "modelled": "push_state_checks; SubDeviceGroup::{is_state, wait_for_state, transition_to, request_into_op} (every into_* wrapper "
+                "is one transition_to); SubDeviceRef::request_subdevice_state_nowait; MainDevice::wait_for_state; "
+                "TxRxResponse::{group_state, group_in_single_state, is_in_state, all_op}; SubDeviceState <-> u8; AlControl decode; "
+                "TimeoutFuture (deadline before the inner future)",
+    "rule": "corpus first (healthy chain PreOp->SafeOp->Op->SafeOp->PreOp->Init; one member stalling / refusing with a status "
+            "code / everybody k polls late; a member falling back with error indication), then: (sum) the real tx_rx against "
+            "1-4 devices scripted to report EVERY list of status nibbles of length <= 3 (quick) / <= 4 (thorough: 69 904 lists, "
+            "exhaustive) and thousands of random lists of length 5-16 (some with the error bit), state list + group_state + "
+            "group_in_single_state + all_op + is_in_state for None/Init/PreOp/Bootstrap/SafeOp/Op/Other(0..15) diffed with the "
+            "model and checked against the element-wise meaning; (tr) random networks of 1-16 devices in 1-3 groups initialised by "
+            "the real MainDevice::init, every group walking a random chain of into_* / request_into_op calls through a second "
+            "MainDevice whose frames are sized so that a status round needs 1, 2 or 3 frames, every member independently "
+            "accepting at once / after 1-5 polls / too late / refusing with an AL status code / stalling / accepting and falling "
+            "back with error, occasionally a lost frame; result AND the exact frames sent (addresses, registers, requested state, "
+            "chunking) diffed with the model; (md) MainDevice::wait_for_state on 1-8 devices reporting equal/mixed states or an "
+            "error. Monitors: last status round vs typestate, error indication, refusal/stall => error within the timeout "
+            "(virtual clock), no spurious error, AL control writes vs group membership on the wire and in every device's own "
+            "request log, chunk sizes. non-trivial = transition with a member that does not simply accept or a lost frame / "
+            "summary over >= 2 distinct values; distinct = distinct case line",
+    "assumptions": [
+        "status nibbles below 16 (AlControl's 4-bit field); TxRxResponse cannot be built outside the crate (#[non_exhaustive])",
+        "m = checked or frames with room for one 14-byte status check (a smaller frame cannot carry the AL control write either)",
+        "one task per MainDevice (matching of responses: C01); retries disabled (default)",
+    ],
+}
+
+MANIFEST_TEXT["C10"] = {
+    "text": "Theorems over arbitrary event traces (any responses, polls, losses, deadline), member lists and frame sizes: "
+            "ok_implies_all_reported / wait_ok_implies_all_reported (Ok ends on a complete status round, one poll per member in "
+            "order, every one reporting the requested state), is_state_true_checks_everybody + chunking_covers_all (the frames "
+            "of a round partition the members in order, each non-empty, fitting, <= 129 checks — any number of frames), "
+            "requests_acknowledged, requests_exactly_members (every datagram of a transition addresses a member; on success the "
+            "AL control writes are exactly the members once each with the requested state), refusal_is_error, "
+            "stall_is_timeout_error (failing rounds then the deadline => Err(Timeout(StateTransition)) at that event), "
+            "wait_fuel_sufficient, md_wait_ok_implies_reported, states_as_reported, group_state_is_or. Summaries AS CODED: "
+            "all_op_as_coded, is_in_state_as_coded, single_state_as_coded; *_iff_partial under 'no entry is None'; "
+            "all_op_counterexample / is_in_state_merge_counterexample (known finding: OR-fold loses None = 0); *_elem_iff for the "
+            "element-wise versions a fix would switch to. error_indication_ignored_counterexample (known finding: is_state "
+            "ignores the error bit). T1: state_discriminants, group_constants.",
+    "note": "Trusted: Lean kernel; hand translation (validated by diffing result + frames sent on recorded traces of the real "
+            "code, incl. the exhaustive summary enumeration through real tx_rx); the trace abstraction (events in send order; a "
+            "deadline either before a frame is sent or while it is unanswered). 'Within the configured timeout' is checked on the "
+            "virtual clock by the monitor, the theorem says the deadline event ends the call. The write read-back of FPWR is the "
+            "MainDevice's own bytes on a real wire, so refusal is in practice detected by the status rounds (timeout), which the "
+            "stall theorem covers.",
+    "technique": "Lean 4 proof (induction over frames/rounds/traces, bounded decide for the nibble algebra) + differential correspondence incl. exhaustive enumeration",
+}
+
+MANIFEST_TEXT["C17"] = {
+    "text": "Theorems over the physical specification EcModel/DcSpec.lean (tree wired through port 0, children on ports 3/1/2 in "
+            "frame order, symmetric link delays, per-device processing/forwarding delays, arbitrary clock offsets, 32/64-bit, any DC "
+            "mix): delay_monotone (ALL inputs: delays of DC devices never decrease); parent_is_true_parent_partial (every tree with "
+            "no junction inside a non-last branch of another junction: run succeeds, parent = physical upstream neighbour, every port's "
+            "downstream = the device plugged in; induction over the tree, unbounded size/depth); chain_delay_exact_partial (pure "
+            "chains, all DC, symmetric forwarding: delay i = arrival i - arrival 0) and chain_delay_formula (what is computed on any "
+            "chain incl. the floor(./2) rounding and the non-DC case); offset_wrapping/offset_checked/offset_formula (0x0920 = now - "
+            "latched receive time as two's-complement i64, 0x0928 = delay, for exactly the DC devices, in order); "
+            "first_dc_is_reference; inconsistent_is_error_partial (arbitrary reports with >= 1 open port each: the only possible panic "
+            "is 'no free ports on parent'); valid_tree_no_panic. Seven known findings, each with a decide-checked counterexample "
+            "theorem and a harness key (nested junctions x2, no open port, over-subscribed junction, non-DC gap, 32-bit wrap inside a "
+            "device, i64 overflow in debug builds).",
+    "note": "Trusted: Lean kernel; hand translation of dc.rs/ports.rs (validated by running the real assign_parent_relationships "
+            "and the real configure_dc on every generated case, both profiles, incl. which panic fires); the physical specification "
+            "itself (its Rust twin is diffed against the Lean one on every tree). Fork/cross delay formulas are modelled and tied "
+            "but proved only as far as monotonicity; exactness is proved for chains.",
+    "technique": "Lean 4 proof (tree induction with a times-erasing simulation; chain induction on the real loop) + differential correspondence + independent physical oracle",
+}
